@@ -3,7 +3,7 @@
 runs the property's quick check against it. usage: tools/mutantgate.py [name-substring]"""
 import os, subprocess, sys, json, re
 sys.path.insert(0, "/verif/mutants")
-from mutants import M
+from mutants import M, EQUIVALENT
 flt = sys.argv[1] if len(sys.argv) > 1 else ""
 rows = []
 for name, prop, fn, old, new in M:
@@ -39,6 +39,9 @@ for name, prop, fn, old, new in M:
         subprocess.run(["git", "-C", "/repo", "worktree", "remove", "--force", wt])
 if not flt:
     with open("/verif/mutants/RESULTS.md", "w") as f:
-        f.write("| mutant | property | quick check exit | first violation signature |\n|---|---|---|---|\n")
+        f.write("| mutant | property | quick check exit | first violation signature / note |\n|---|---|---|---|\n")
         for r in rows:
-            f.write("| %s | %s | %s | `%s` |\n" % r)
+            note = "`%s`" % r[3] if r[3] else ""
+            if r[0] in EQUIVALENT:
+                note = "EQUIVALENT: " + EQUIVALENT[r[0]]
+            f.write("| %s | %s | %s | %s |\n" % (r[0], r[1], r[2], note))
